@@ -528,28 +528,50 @@ Definition spc_eqb (a b : spc) : bool :=
 Definition cstate_eqb (a b : cstate) : bool :=
   match a, b with CLive, CLive | CReq, CReq | CDone, CDone => true | _, _ => false end.
 
+(* lazy conjunction: vm_compute evaluates the arguments of [andb] eagerly *)
+Notation "a &&& b" := (if a then b else false) (at level 40, left associativity, only parsing).
+
 Definition reg_eqb (a b : reg) : bool :=
-  rpc_eqb (r_rpc a) (r_rpc b) && gpc_eqb (r_gpc a) (r_gpc b) && Bool.eqb (r_tok a) (r_tok b)
-  && Bool.eqb (r_tact a) (r_tact b) && Bool.eqb (r_tchan a) (r_tchan b)
-  && Nat.eqb (r_runs a) (r_runs b) && Nat.eqb (r_infl a) (r_infl b) && Nat.eqb (r_spawns a) (r_spawns b)
-  && Bool.eqb (r_open a) (r_open b) && Nat.eqb (r_permits a) (r_permits b)
-  && kind_eqb (r_kind a) (r_kind b) && Bool.eqb (r_fctx a) (r_fctx b).
+  rpc_eqb (r_rpc a) (r_rpc b) &&& gpc_eqb (r_gpc a) (r_gpc b) &&& Bool.eqb (r_tok a) (r_tok b)
+  &&& Bool.eqb (r_tact a) (r_tact b) &&& Bool.eqb (r_tchan a) (r_tchan b)
+  &&& Nat.eqb (r_runs a) (r_runs b) &&& Nat.eqb (r_infl a) (r_infl b) &&& Nat.eqb (r_spawns a) (r_spawns b)
+  &&& Bool.eqb (r_open a) (r_open b) &&& Nat.eqb (r_permits a) (r_permits b)
+  &&& kind_eqb (r_kind a) (r_kind b) &&& Bool.eqb (r_fctx a) (r_fctx b).
 Definition trig_eqb (a b : trig) : bool :=
-  tpc_eqb (t_pc a) (t_pc b) && Nat.eqb (t_reg a) (t_reg b) && Nat.eqb (t_runs0 a) (t_runs0 b).
-Definition stopper_eqb (a b : stopper) : bool := spc_eqb (s_pc a) (s_pc b) && Bool.eqb (s_wait a) (s_wait b).
+  tpc_eqb (t_pc a) (t_pc b) &&& Nat.eqb (t_reg a) (t_reg b) &&& Nat.eqb (t_runs0 a) (t_runs0 b).
+Definition stopper_eqb (a b : stopper) : bool := spc_eqb (s_pc a) (s_pc b) &&& Bool.eqb (s_wait a) (s_wait b).
 
 Fixpoint list_eqb {A} (eqb : A -> A -> bool) (a b : list A) : bool :=
   match a, b with
   | [], [] => true
-  | x :: a', y :: b' => eqb x y && list_eqb eqb a' b'
+  | x :: a', y :: b' => eqb x y &&& list_eqb eqb a' b'
   | _, _ => false
   end.
 
 Definition st_eqb (a b : st) : bool :=
-  Nat.eqb (wg a) (wg b) && Nat.eqb (readers a) (readers b) && Bool.eqb (writer a) (writer b)
-  && Bool.eqb (ctxd a) (ctxd b) && cstate_eqb (parent a) (parent b) && Bool.eqb (stopped a) (stopped b)
-  && list_eqb reg_eqb (regs a) (regs b) && list_eqb trig_eqb (trigs a) (trigs b)
-  && list_eqb stopper_eqb (stops a) (stops b).
+  list_eqb reg_eqb (regs a) (regs b) &&& list_eqb stopper_eqb (stops a) (stops b)
+  &&& list_eqb trig_eqb (trigs a) (trigs b)
+  &&& Nat.eqb (wg a) (wg b) &&& Nat.eqb (readers a) (readers b) &&& Bool.eqb (writer a) (writer b)
+  &&& Bool.eqb (ctxd a) (ctxd b) &&& cstate_eqb (parent a) (parent b) &&& Bool.eqb (stopped a) (stopped b).
+
+(* ---- partial-order reduction for the history matcher ----
+   A purely local internal step (it reads and writes only the thread's own registers, can never be
+   disabled by, and never disables or changes the effect of, a step of another thread) may be taken
+   first: every history accepted through the reduced exploration is accepted by the full model, and
+   the reduced exploration reaches (up to commuting such steps) every state the full one does.
+   Candidates: the go statement, RUnlock, time.NewTimer, t.Reset, the enabled drain <-t.C,
+   the exit path (deferred t.Stop + wg.Done), the ctx.Err() check once the context is cancelled
+   (it never becomes live again), and Stop's Unlock. *)
+Definition eager_candidates (s : st) : list lab :=
+  flat_map (fun r => [TGo r; TRUnlock r; TNewTimer r; TReset r; TDrain r; TDone r] ++ (if ctxd s then [TCheckCtx r] else []))
+           (seq 0 (length (regs s)))
+  ++ map TWUnlock (seq 0 (length (stops s))).
+
+Definition match_labels (s : st) : list lab :=
+  match find (enabled s) (eager_candidates s) with
+  | Some l => [l]
+  | None => tau_labels s
+  end.
 
 (* ---- scenarios ---- *)
 (* registration r: (kind, f blocks until ctx.Done, gate initially open);
@@ -567,8 +589,8 @@ Definition match_fuel : nat := 200.
 
 (* history acceptance: some run of the model produces exactly the recorded events, in order *)
 Definition accepts_history (c : config) (evs : list lab) : bool :=
-  accepts qstep vis lab_eqb st_eqb tau_labels (fun _ e => [e]) match_fuel (init c) evs.
+  accepts qstep vis lab_eqb st_eqb match_labels (fun _ e => [e]) match_fuel (init c) evs.
 
 Definition first_rejected (c : config) (evs : list lab) : option nat :=
-  first_reject qstep vis lab_eqb st_eqb tau_labels (fun _ e => [e]) match_fuel
-               (close qstep vis st_eqb tau_labels match_fuel [init c]) evs O.
+  first_reject qstep vis lab_eqb st_eqb match_labels (fun _ e => [e]) match_fuel
+               (close qstep vis st_eqb match_labels match_fuel [init c]) evs O.
